@@ -59,6 +59,87 @@ PLAN["C11"] = {
     "technique": TECH,
 }
 
+OTHER_NOTE = ("the deductive part is REAL-arithmetic, with builtin/list models and the loop-shape reading trusted (A1, A2); "
+              "the bounded stand-ins execute the real code over the stated finite domains against oracles written "
+              "from the property text / independent format specs in /verif/spec and are never counted as proved")
+MIXED = "contract-based deductive verification of the kernels (pyvc/z3) + labelled bounded stand-ins for the rest"
+
+
+def other(expl, claim, bounded, extra_note=""):
+    return {"level": "other", "explanation": expl, "claim": claim, "bounded": bounded, "quick_canaries": 2,
+            "note": OTHER_NOTE + extra_note, "technique": MIXED}
+
+
+PLAN["C01"] = other(
+    "Deductive: the numeric codec kernel numToStr o strToIntOrFloat is proved (on the Repr/Dec abstraction of repr() and "
+    "%d) to return the timestamp bit-identically or, within 1e-14 relative of an integer, that integer, never to "
+    "raise, and to be a fixed point of re-saving. Bounded: full save/open round trip through the four formats.",
+    "Numbers survive the text codec exactly (proved, all x in [0,1e15]); the whole-file round trip holds on the stated "
+    "bounded domain (labels with quotes/newlines/keywords, 9 critical numbers, 4 formats x 2 x 2 flags).",
+    ["c01_roundtrip"], "; the regex/offset text readers are outside any solver's reach here (DESIGN 1)")
+PLAN["C02"] = other(
+    "Bounded: files written by save are parsed by an independent tokenizer written from Praat's format page and the "
+    "README schemas; sizes, quote doubling, partition property, four formats agree; the spec writer/reader pair is "
+    "itself checked. Deductive: numeric codec kernel (shared with C01).",
+    "Written files are well-formed and the four formats agree on the stated bounded domain; numbers are printed "
+    "decodably (proved kernel).", ["c02_wellformed", "spec_pair_selfcheck"])
+PLAN["C03"] = other(
+    "Deductive: numeric decode kernel; _removeBlanks omits exactly the empty-labelled entries. Bounded: files from "
+    "the independent writers (long, short, ELAN-long, two JSON) x encodings x newlines x flags opened by praatio.",
+    "The reader returns what a spec-conformant file encodes on the stated bounded domain; blank removal and number "
+    "decoding are proved.", ["c03_reader"])
+PLAN["C04"] = other(
+    "Bounded: sweep of sliver positions/lengths, thresholds, overrides and formats, files read back with the "
+    "independent reader. (The fold invariants for _fillInBlanks/_removeUltrashortIntervals are not built; stated.)",
+    "Saving adds only blanks and absorbs only sub-threshold slivers on the stated bounded domain.",
+    ["c04_save_sweep"], "; no deductive obligation is specific to C04 yet beyond the shared numeric kernel")
+PLAN["C10"] = other(
+    "Deductive: the merge kernel IntervalTier.insertEntry(merge) that union is built on, and the overlap classifier "
+    "getIntervalsInInterval (crop truncated) that intersection/mergeLabels/difference are built on, are proved against "
+    "their specs. Bounded: all pairs of tiers on a 5-cell grid x 2 labels against the labelled-time algebra.",
+    "Set operations obey the algebra of labelled time for all 571x571 grid pairs (+6-cell pairs in thorough, random "
+    "larger pairs); their kernels are proved for all inputs.", ["c10_setops"])
+PLAN["C14"] = other(
+    "Deductive: the tolerance comparison my_math.lessThanOrEqual / isclose that decides whether a timestamp is moved "
+    "is proved (moved if within maxDifference, untouched beyond maxDifference*(1+1e-14)). Bounded: dejitter, "
+    "alignBoundariesAcrossTiers and morph on dyadic grids (exhaustive) and random decimals.",
+    "Boundary adjusters move times only as far as allowed and keep labels on the stated bounded domain; the threshold "
+    "kernel is proved.", ["c14_adjusters"])
+PLAN["C15"] = other(
+    "Deductive: getValuesInInterval (start <= t <= end, order kept) and intervalOverlapCheck (no/time threshold, "
+    "boundaryInclusive) proved against interval arithmetic for all inputs. Bounded: find, getNonEntries, timestamps, "
+    "getValuesInIntervals/AtPoints, invertIntervalList, equality, validate on exhaustive small grids.",
+    "Queries agree with their definitions: two helpers proved for all inputs, the rest on the stated bounded domain.",
+    ["c15_queries"])
+PLAN["C16"] = other(
+    "Deductive: Wav._getIndexAtTime is proved sample-aligned and equal to width*round(t*rate) for the enumerated "
+    "rates/widths and all real t. Bounded: list-of-samples model for all time-addressed operations, conversions, "
+    "save/open, QueryWav.",
+    "Every time-addressed Wav operation acts on whole samples: index computation proved for all times; the byte-slice "
+    "operations checked against the sample model on the stated bounded domain.", ["c16_wav_model"])
+PLAN["C17"] = other(
+    "Deductive: Wav._getIndexAtTime and the interval classifier are proved. Bounded: readFramesAtTimes, extractSubwav, "
+    "splitAudioOnTier and the generators against the sample model (files under out/tmp).",
+    "Interval-driven extraction keeps and drops exactly the marked samples on the stated bounded domain.",
+    ["c17_extraction"])
+PLAN["C18"] = other(
+    "Deductive: utils.sign, getInterval (clamped to [0,max]) and chooseClosestTime proved against their specs for all "
+    "inputs; the index computation shared with C16. Bounded: findNearestZeroCrossing (with a per-call watchdog for "
+    "termination), tgBoundariesToZeroCrossings, audioSplice.",
+    "Zero-crossing search helpers are proved; termination, range, genuineness of crossings and splicing are checked on "
+    "the stated bounded domain.", ["c18_zero_crossing"], "; the termination variant of DESIGN 4/C18 is not built")
+PLAN["C19"] = other(
+    "Bounded: KlattGrid open/save/open (reference file and synthetic grids, 15 modification functions with an "
+    "exactly-once counting wrapper) and point objects (all point lists <= 4 over the number set, 3 classes, long and "
+    "short forms) against independent readers/writers in /verif/spec.",
+    "KlattGrid and point-object files round-trip every number exactly on the stated bounded domain.",
+    ["c19_klatt_roundtrip", "c19_points_roundtrip"], "; no deductive obligation is specific to C19 yet (stated)")
+PLAN["C20"] = other(
+    "Bounded: medianFilter, znormalizeData, rms, getPitchMeasures, detectPitchErrors, loadTimeSeriesData and the row "
+    "filters against textbook definitions (exhaustive for short series over a small value set, random up to length 15).",
+    "Numeric series helpers match their definitions on the stated bounded domain.", ["c20_series"],
+    "; deductive obligations for _stepFilter's index logic are added when built (see evidence)")
+
 NOT_CLAIMED = {}
 
 U = "praatio/utilities/utils.py"
